@@ -244,6 +244,14 @@ def blake2_ops():
     return ops
 
 
+def _affordable_rates(x, cands):
+    """keep the rates under which the longest message of the run's pool needs at most 48 permutations
+    (a 275-byte message under an 8-bit rate is 275 pure-Python Keccak-f calls per call and per oracle query)"""
+    longest = 8 * max([len(m) for m in x.pool] + [1])
+    ok = [r for r in cands if longest <= 48 * r]
+    return ok or cands[-1:]
+
+
 def keccak_ops(sha3=False):
     ops = {}
 
@@ -283,6 +291,7 @@ def keccak_ops(sha3=False):
         b = x.info["b"]
         cands = [r for r in (8, 40, 72, 136, 144, 256, 576, 832, 1024, 1088, 1152, 1344, 1336)
                  if r < b and r != x.info["r"]]
+        cands = _affordable_rates(x, cands)
         kw = {"r": x.opt("r", lambda: x.rng.choice(cands))}
         m = x.msg()
         if m and x.rng.random() < 0.3:
@@ -300,7 +309,7 @@ def keccak_ops(sha3=False):
     def setrate(x, c):
         # a valid reconfiguration: from here on the object is "equally configured" to Keccak(b, c=b-r, len)
         b = x.info["b"]
-        cands = [r for r in (8, 40, 72, 136, 144, 256, 576, 832, 1024, 1088, 1152, 1344, 1336) if r < b]
+        cands = _affordable_rates(x, [r for r in (8, 40, 72, 136, 144, 256, 576, 832, 1024, 1088, 1152, 1344, 1336) if r < b])
         r = x.opt("r", lambda: x.rng.choice(cands))
         rec = x.pb.plan["objects"][x.obj]
         ln = rec["len"] if rec.get("kind") == "Keccak" else int(rec["path"].rsplit("_", 1)[1])
@@ -579,6 +588,8 @@ def mode_ops(ctr=False):
 
     def enc(x, c):
         x.encs.append(x.call(c, "enc", [B(mm(x))]))
+        if x.rng.random() < 0.3:
+            x.encs.append(x.call(c, "enc", [B(mm(x))]))      # several messages encrypted in a row
     ops["enc"] = (CHK, enc)
 
     def dec_ref(x, c):
@@ -1254,6 +1265,18 @@ for _f in _FAMILIES:
                 FAMILY[_k].append(_j)
 
 
+def _stride(n):
+    from math import gcd
+    k = int(n * 0.618) | 1
+    while gcd(k, n) != 1:
+        k += 2
+    return k
+
+
+_STRIDE_TRI = _stride(len(_TRI))
+_STRIDE_FB = _stride(len(_FB))
+
+
 def _other(rng, cur, choices):
     c = [x for x in choices if x != cur]
     return rng.choice(c) if c else cur
@@ -1442,7 +1465,8 @@ class C10(Machine):
         steer = None
         mode = idx % 5
         if mode == 0:
-            steer = _TRI[(idx // 5) % len(_TRI)]
+            # (strides coprime with the table sizes: a short batch samples all kinds, a long one covers the table)
+            steer = _TRI[((idx // 5) * _STRIDE_TRI) % len(_TRI)]
             kind = steer[0]
         elif mode == 1:
             bi = _BI[(idx // 5) % len(_BI)]
@@ -1451,7 +1475,7 @@ class C10(Machine):
         elif mode == 2:
             # steered fault bigram: (kind, op a carrying an interrupt early/mid/late or a failing
             # collaborator, checked op c right after it on the same object)
-            fsteer = _FB[(idx // 5) % len(_FB)]
+            fsteer = _FB[((idx // 5) * _STRIDE_FB) % len(_FB)]
             kind = fsteer[0]
         elif idx % 10 == 4:
             # steered generator interleaving: start a generator and leave it suspended, make a
